@@ -8,6 +8,6 @@ CONSTANTS
   Dialects = {"tpl", "xgo"}
   CommentModes = {TRUE}
   InputMode = "lexemes"
-  Gen = "shmix"
+  Gen = "shmix3"
 INVARIANTS TypeOK TokenBound OffsetsMonotone TextExact Partition Export
 PROPERTIES Progress
